@@ -121,7 +121,8 @@ class C02(Check):
             "reduced alphabet (nest3, thorough), each x the full value box over its free variables x "
             "4 evaluator entry points; plus one-variable-removed environments, short-circuit "
             "probes with a raising callee, and non-commutative (2x2 matrix) operands for n-ary "
-            "sums/products. A case is non-trivial when the reference semantics yields a value "
+            "sums/products, and sibling subtrees that differ only in hash-colliding constants (-1 / -2, "
+            "0 / 2**61-1). A case is non-trivial when the reference semantics yields a value "
             "(not an error) in at least one environment; distinct = distinct trees.")
     assumptions = [
         "reference semantics vf/refsem.py is the intended denotation (one plain Python operator "
@@ -145,6 +146,7 @@ class C02(Check):
             ("shortcircuit", self.gen_shortcircuit),
             ("noncomm", self.gen_noncomm),
             ("typed-consts", self.gen_typed_consts),
+            ("hash-twins", lambda: (("d2", s) for s in gen.twin_trees())),
         ]
         if tier == "thorough":
             fams.append(("nest3", lambda: (("n3", s) for _, s in
